@@ -415,9 +415,11 @@ def run_soft_sim(case):
         universe = [K(k) for k in range(NKEYS)]
         f = sorted(int(k[1:]) for k in universe if cache.is_refreshing(k))
         b = sorted((int(k[1:]), vt.dec(backing.get_sync(k))) for k in backing.keys())
+        o = [int(k[1:]) for k in cache._access_order]      # LRU bookkeeping (private; front = next victim)
         j = lambda xs: " ".join(map(str, xs))
-        line = f"adv {i} | C {j(c)} | F {j(f)} | B {' '.join(f'{k}={v}' for k, v in b)}"
+        line = f"adv {i} | C {j(c)} | F {j(f)} | O {j(o)} | B {' '.join(f'{k}={v}' for k, v in b)}"
         out.append(" ".join(line.split()))
+        judge.append(f"obs | C {j(c)} | O {j(sorted(o))}")
 
     def traced(gen, i, now, extra=""):
         try:
@@ -531,9 +533,13 @@ class C16(core.Property):
             "delete / invalidate of re-inserted keys); a cache operation that raises is recorded and judged (store/op/raised) while the other operations go on; "
             "written values are opaque identities mapped per case to the int itself or to a falsy-but-not-None python object (0, 0.0, '', False, (), b'', frozenset(), 0j, fresh [] / {} / set() / bytearray(), "
             "user objects with __bool__ False or __len__ 0; none / 30 % / 60 % / all of the values of a script), for every policy × write mode; "
+            "30 % of the store cases contain in-flight-window rounds (2–3 puts / deletes of ONE key started a fraction of the write latency apart so that their backing-store applications are in flight at once, "
+            "the key dropped from the cache by the delete itself, an invalidate or an eviction, gets whose backing read lands before / between / exactly on / after the instants the writes are applied, then a get once all are applied); "
             "30 % of the store cases add a CacheWarmer (0–6 keys with repeats and absent keys, 1–10 ms apart, list or callable provider) started at 0, on/next to an operation or right after an invalidate_all, running next to the client traffic; "
             "then flush and a read of every key; family softttl (same value domain): real Simulation, SoftTTLCache(soft 0–20 ms, hard soft+0–30 ms, capacity "
-            "none/1/2), gets at entry age soft/hard ±1 ns and ± read latency, backing store rewritten/deleted behind the cache; "
+            "none/1/2/3 over 2–4 keys when finite), gets at entry age soft/hard ±1 ns and ± read latency, backing store rewritten/deleted behind the cache, "
+            "refresh-window rounds (a stale hit starts a background refresh, misses of other keys complete inside the refresh's read latency and evict the key, or it is invalidated, before the refresh installs its value); "
+            "after every segment size ≤ capacity and LRU-tracked keys = cached keys are judged; "
             "non-trivial: policy case with ≥1 successful evict, store/softttl case with >4 transcript lines; distinct = distinct case content")
     trusted_base = [
         "hv/props/c16.py adapters (drive the real policy / cache objects, canonical transcript)",
@@ -541,10 +547,12 @@ class C16(core.Property):
         "policy tracked-key set is read by draining a deepcopy through the public evict()",
         "engine-based families: the segment schedule (which operation advanced at each delivery, with its time) is taken from the real run and fed to the model; the engine's ordering is C01/C02's business",
         "SoftTTLCache.handle_event is wrapped by a subclass to log refresh segments; flush iteration order is read with get_dirty_keys() right before flush()",
+        "SoftTTLCache: the LRU bookkeeping is read from the private `_access_order` after every segment (compared with the model in order; the Spec judge gets it sorted, next to get_cached_keys())",
         "written values are decoded from what the cache returns by object identity (the adapter keeps the object it passed to put())",
         "CacheWarmer is handed a proxy whose get() is the real CachedStore.get wrapped to log its segments",
     ]
     assumptions = [
+        "read-after-write, write-through stores, is additionally judged with overlapping writes ordered (readOkOrd): a get may not return the value of a write w' when a write that completed before the get was issued was both issued after w' and completed after w' (the cache takes writes in issue order, the backing store in completion order); in write-back mode only the regular-register clause is judged — there an eviction's synchronous write-back can be overtaken by a delete issued earlier that is still in flight (fixes/C16-writeback-overtaken-by-delete.known.md, reproduced on /repo, not alarmed)",
         "read-after-write is judged as a regular register over segment order: a get may return the value of any write to its key that is not entirely followed by another write which completed before the get was issued (a delete writes 'absent'); put values are unique per script",
         "lost-write is judged at quiescence against the backing store's contents, exempting keys still reported dirty",
         "soft-TTL age is judged black-box: the returned value must have been read from the backing store (seen by the user-supplied KVStore subclass) or written through the cache less than hard_ttl before the get was issued; the Lean theorem is about the entry's cached_at at the moment the serve decision is taken",
@@ -557,6 +565,7 @@ class C16(core.Property):
         "policy theorems: well-formed histories (on_insert only for a key that is not tracked — the protocol CachedStore._cache_put follows; proved at the store level)",
         "store theorems: capacity ≥ 1 (the constructor rejects less), policy made by Pol.ofName",
         "writeback_reaches_store, read_after_write_all_interleavings, read_after_write_sequential, soft_ttl_age_le_hard: repaired variant (fixes/C16-*.diff); soft_ttl ≤ hard_ttl (constructor)",
+        "read_after_write_ordered_all_interleavings: write-through, repaired variant, Schedule ops as, and lateOk [] as — no resume of an id before its start (a spurious earlier resume would move the judge's issue index of that operation; observed runs never contain one); write-back stores are outside this theorem (fixes/C16-writeback-overtaken-by-delete.known.md)",
         "read_after_write_all_interleavings: Schedule ops as — operation ids unique, every first segment in the schedule is that of its table entry (a flush with any iteration order of the dirty set), no id started twice, put values pairwise distinct; resumes of ids with nothing pending are allowed anywhere (they are no-ops)",
     ]
     partial_theorems = {
@@ -587,8 +596,8 @@ class C16(core.Property):
         rl = rng.choice([1, 5, 5, 10]) * MS
         wl = rng.choice([1, 5]) * MS
         cl = rng.choice([100_000, 100_000, 0, MS])
-        cap = rng.choice([0, 0, 1, 2])
-        nk = rng.choice([1, 2, 3])
+        cap = rng.choice([0, 0, 1, 1, 2, 2, 3])
+        nk = rng.choice([1, 2, 3]) if cap == 0 else rng.choice([2, 3, 4, 4])
         ops = []
         v = [1]
 
@@ -606,6 +615,26 @@ class C16(core.Property):
             k = rng.randrange(nk)
             r = rng.random()
             base = cached.get(k)
+            if base is not None and soft < hard and rng.random() < 0.35:
+                # a background refresh of k in flight (stale hit at ts, the refresh reads the backing store
+                # until ts + rl) while the entry leaves the cache: misses of other keys that complete inside
+                # the window evict it (finite capacity), or it is invalidated; then traffic goes on
+                ts = max(t, base + rng.choice([soft, soft + 1, (soft + hard) // 2, hard - 1]))
+                ops.append([ts, "get", k])
+                others = [x for x in range(nk) if x != k]
+                rng.shuffle(others)
+                for x in others[:rng.choice([1, max(1, cap), max(1, cap), cap + 1])]:
+                    # completes at ts + e, e in (0, rl]
+                    e = rng.choice([1, 100_000, rl // 2, rl - 1, rl])
+                    ops.append([max(0, ts - rl + e), "get", x])
+                    if rng.random() < 0.5 and not any(o[1] == "bput" and o[2] == x for o in ops):
+                        ops.append([0, "bput", x, nv()])
+                if rng.random() < 0.3:
+                    ops.append([ts + rng.choice([1, rl // 2, rl - 1]), "inv", k])
+                t = ts + rl + rng.choice([0, 1, rl // 2, rl])
+                ops.append([t, "get", rng.randrange(nk)])
+                cached.pop(k, None)
+                continue
             if base is not None and rng.random() < 0.7:
                 # on / around the zone boundaries of the entry we believe is cached
                 off = rng.choice([soft - 1, soft, soft + 1, hard - 1, hard, hard + 1, hard - rl // 2,
@@ -698,6 +727,45 @@ class C16(core.Property):
                     else:
                         ops.append([t, "inv", rng.choice(first)])
             n = rng.choice([0, 2, 4, 8])
+        if rng.random() < 0.3:
+            # in-flight windows: several writes / deletes of ONE key whose backing-store applications are in
+            # flight at once, the key taken out of the cache meanwhile (the delete itself, an invalidate, an
+            # eviction by another key), and misses whose backing read lands before, between, exactly on and
+            # after the instants the writes are applied, then a read once everything has been applied.
+            # Whatever a miss reads while a newer write is still on its way must not stay in the cache.
+            for _ in range(rng.choice([1, 1, 2])):
+                k = rng.randrange(nk)
+                other = (k + 1 + rng.randrange(max(1, nk - 1))) % nk
+                rnd, applied, tt = [], [], t + gap()
+                for j in range(rng.choice([2, 2, 2, 3])):
+                    kind = "put" if rng.random() < 0.65 else "del"
+                    L = lat["dl"] if kind == "del" else (lat["wl"] if wt else lat["cl"])
+                    rnd.append([tt, kind, k, 0] if kind == "put" else [tt, kind, k])
+                    applied.append(tt + L)
+                    tt += max(100_000, rng.choice([L // 4, L // 2, L // 2, L - 100_000, L - lat["rl"], L]))
+                applied.sort()
+                reads = set()
+                for a, b in zip(applied, applied[1:] + [applied[-1] + 2 * MS]):
+                    for r in rng.sample([a, a + 100_000, (a + b) // 2, b - 100_000, a - 100_000], rng.choice([1, 2, 3])):
+                        reads.add(r)
+                first = True
+                for r in sorted(reads):
+                    tg = max(t, r - lat["rl"])
+                    # the key is dropped from the cache before the first of these reads (so that it misses);
+                    # the later ones mostly find whatever the earlier miss left behind
+                    d = rng.random() if first or rng.random() < 0.25 else 1.0
+                    first = False
+                    if d < 0.7:
+                        rnd.append([tg, "inv", k])
+                    elif d < 0.9:
+                        rnd.append([tg, "put", other, 0])      # at capacity 1 (or a full cache) this evicts k
+                    rnd.append([tg, "get", k])
+                tt = max(tt, applied[-1]) + rng.choice([100_000, MS, 5 * MS])
+                rnd.append([tt, "get", k])
+                rnd.sort(key=lambda o: o[0])
+                ops.extend(rnd)
+                t = tt
+            n = rng.choice([0, 0, 2, 4])
         for j in range(n):
             t += gap()
             k = hot if rng.random() < 0.5 else rng.randrange(nk)
@@ -981,7 +1049,7 @@ class C16(core.Property):
                 body.append(f"fresh {j} {rest}")
             return (f"judge-policy {case['policy']} {case['arg']}", body)
         if fam == "softttl":
-            return (f"judge-softttl {case['hard']}", [l[3:] for l in impl_out if l.startswith("#j ")])
+            return (f"judge-softttl {case['hard']} {case['cap']}", [l[3:] for l in impl_out if l.startswith("#j ")])
         if fam == "store":
             body = self._store_head(case)
             last_b = ""
@@ -1082,6 +1150,8 @@ THEOREMS = [
     "HappyModel.C16.sampled_evicts_lru_of_sample",
     "HappyModel.C16.read_after_write_all_interleavings",
     "HappyModel.C16.read_after_write_overlap_witness",
+    "HappyModel.C16.read_after_write_ordered_all_interleavings",
+    "HappyModel.C16.read_after_write_ordered_witness",
     "HappyModel.C16.read_after_write_sequential",
     "HappyModel.C16.read_after_write_refill_witness",
     "HappyModel.C16.writeback_reaches_store",
@@ -1090,6 +1160,8 @@ THEOREMS = [
     "HappyModel.C16.dirty_evicted_lost_judged",
     "HappyModel.C16.soft_ttl_age_le_hard",
     "HappyModel.C16.soft_ttl_expired_served_current",
+    "HappyModel.C16.soft_ttl_size_le_capacity",
+    "HappyModel.C16.soft_ttl_lru_keys_eq_cache_keys",
 ]
 for _m in EXT.values():
     THEOREMS = THEOREMS + list(_m.THEOREMS)
